@@ -40,11 +40,12 @@ def capture():
     """Capture exceptions for debug purposes."""
 
     global captured_errors
+    previous_captured_errors = captured_errors
     captured_errors = []
     try:
         yield captured_errors
     finally:
-        captured_errors = None
+        captured_errors = previous_captured_errors
 
 
 def format_error(exception, prefix='ERROR: '):
